@@ -17,6 +17,10 @@ func init() {
 			r.Try(func() { ruleNoInPlaceOnShared(w, r, "R15.22") })
 			r.Rule("R15.23", 1, "a Build that fails leaves no partial state: the container starts no goroutine other than the context watchers (a build abandoned at its deadline finishes on its own and nobody owns what it constructed)")
 			r.Try(func() { reexport(w, r, "R15.23", func(sub *Report) { checkGoStatements(w, sub) }, "R09.4") })
+			r.Rule("R15.25", 5, "a failure of resolution is reported as it is: every return reached on the non-nil edge of the error of Get / GetKeyed / GetGroup / resolve / createInstance hands that error on")
+			r.Try(func() { ruleResolutionErrorsKept(w, r, "R15.25") })
+			r.Rule("R15.24", 3, "a constructor's error is the constructor's own: the function a descriptor runs is the one that was registered - descriptors are never rewritten (a wrapper swapped in for the constructor sees its results before the invoker has looked at the error)")
+			r.Try(func() { ruleDescriptorImmutable(w, r, "R15.24") })
 			r.Rule("R15.21", 1, "no operation panics on an incomparable service instance: instances are never compared with == through the Disposable interface")
 			r.Try(func() { ruleNoInstanceEquality(w, r, "R15.21") })
 			r.Rule("R15.17", 1, "no operation panics on an unhashable service instance: no map is keyed by an interface type that holds instances")
